@@ -199,7 +199,11 @@ func checkC10(p *Program, r *Report) {
 				continue
 			}
 			nSess++
-			want := "conv:int32(mul(8,len(" + m["key"] + ")))"
+			bitLen := mulTerms(K(8), ON("len", "", S(m["key"])))
+			want := bitLen.String()
+			if platformIntBytes > 4 {
+				want = ON("conv", "int32", bitLen).String()
+			}
 			r.Check(m["key"] != "" && m["keyBitLen"] == want, fmt.Sprintf("query session created in %s", shortFn(f)), p.Pos(pos[base]),
 				"keyBitLen = 8*len(key) of the same key", fmt.Sprintf("key=%s keyBitLen=%s, want keyBitLen = 8*len(key)", m["key"], m["keyBitLen"]))
 		}
@@ -248,6 +252,9 @@ func checkC10(p *Program, r *Report) {
 	// ---- node decoder siblings (shared with C01.layout): a copy that reads a word the others
 	// guard (the word straddled by a short node) panics on tries whose bitmap ends there
 	checkLayoutSiblings(p, r, "C10.node-decoder")
+
+	// ---- a hit carries a supplied value: lookups locate leaf bytes only through the leaf array's decoder
+	checkLeafDecoder(p, r, "C10.leaf-decoder")
 
 	// ---- a hit carries a supplied value: the value array layout decision is per element
 	checkVLenWidth(p, r, "C10.vlen-width")
@@ -414,7 +421,7 @@ func overrunGuarded(p *Program, e *evaluator, f *ssa.Function, adv *ssa.BinOp, l
 		}
 	}
 	keyLen := func(t string) bool {
-		return strings.HasPrefix(t, "conv:int32(mul(8,len(") || strings.HasSuffix(t, ".keyBitLen")
+		return strings.HasPrefix(t, "conv:int32(mul(8,len(") || strings.HasPrefix(t, "mul(8,len(") || strings.HasSuffix(t, ".keyBitLen")
 	}
 	// guard blocks: If comparing a carrier with the key length, one edge leaves (does not reach the lookup)
 	guards := map[*ssa.BasicBlock]bool{}
@@ -784,3 +791,55 @@ func checkEmptyGuard(p *Program, r *Report) {
 }
 
 func init() { checks["C10"] = checkC10 }
+
+// checkLeafDecoder: on the paths of Get/RangeGet/Search the bytes of a leaf
+// value are located only by a method of the leaf array (presence bitmap and
+// fixed/variable width), never by indexing Leaves.Bytes with a multiple of the
+// ordinal; the typed integer getters, whose values are dense and fixed-width
+// by type, are the only functions that index Leaves.Bytes directly.
+func checkLeafDecoder(p *Program, r *Report, rule string) {
+	r.Rule(rule, "who-may-index", "leaf value bytes are located by the leaf array decoder on lookup paths", 1)
+	var roots []*ssa.Function
+	for _, n := range []string{"Get", "RangeGet", "Search"} {
+		if f := p.Method(p.Trie, "SlimTrie", n); f != nil {
+			roots = append(roots, f)
+		}
+	}
+	if len(roots) != 3 {
+		r.Unk("lookup API", "", "Get/RangeGet/Search not all found")
+		return
+	}
+	var direct []string
+	usesDecoder := false
+	for f := range trieReach(roots...) {
+		if !trieScope(f) {
+			continue
+		}
+		instrsOf(f, func(_ *ssa.BasicBlock, in ssa.Instruction) {
+			switch x := in.(type) {
+			case *ssa.Slice:
+				if wirePathOf(x.X) == "Slim.Leaves.Bytes" {
+					direct = append(direct, p.Pos(x.Pos())+" ("+shortFn(f)+")")
+				}
+			case *ssa.IndexAddr:
+				if wirePathOf(x.X) == "Slim.Leaves.Bytes" {
+					direct = append(direct, p.Pos(x.Pos())+" ("+shortFn(f)+")")
+				}
+			case *ssa.Call:
+				g := calleeOf(x)
+				if g != nil && g.Signature.Recv() != nil && isNamed(g.Signature.Recv().Type(), triePath, "VLenArray") && len(x.Call.Args) > 0 && wirePathOf(x.Call.Args[0]) == "Slim.Leaves" {
+					usesDecoder = true
+				}
+			}
+		})
+	}
+	sort.Strings(direct)
+	switch {
+	case len(direct) > 0:
+		r.Bad("Get/RangeGet/Search locate leaf bytes by the decoder", direct[0][:strings.Index(direct[0], " ")], "Leaves.Bytes is indexed directly at "+strings.Join(direct, ", ")+": the presence bitmap (empty values) and variable widths are bypassed, so a hit can carry another key's bytes or panic")
+	case !usesDecoder:
+		r.Unk("Get/RangeGet/Search locate leaf bytes by the decoder", "", "no call of a leaf array method on Slim.Leaves found on the lookup paths")
+	default:
+		r.OK("Get/RangeGet/Search locate leaf bytes by the decoder", "", "only through a method of the leaf array")
+	}
+}
